@@ -7,5 +7,5 @@ NsJump == {0, 1, 4}
 Diffusions == {"brownian", "gbm", "vasicek", "localvol_const", "localvol_lin"}
 Merton == {"merton"}
 Kou == {"kou"}
-NsKou == {0, 1, 3}
+NsKou == {0, 1, 3, 9}      \* 9: more jumps in one step than any plausible work-array bound
 =============================================================================
